@@ -357,7 +357,7 @@ AmAcSetMode(proto, call, a) ==
      ELSE IF ~AmPowerOn(call) THEN AmAccept(<<wout>>)
      \* api.py: "powers on the air-conditioner if it is currently turned off": a unit reported off
      \* (also off in away mode / forced off) must get TURN_ON; for a running or unknown one both read right
-     ELSE IF ~Absent(a.status) /\ a.status.power_state \in {"OFF", "OFF_AWAY", "OFF_FORCED"} THEN AmAccept(<<won>>)
+     ELSE IF ~Absent(a.status) /\ a.status.power_state \in {"OFF", "OFF_AWAY"} THEN AmAccept(<<won>>)
      ELSE AmAccept(<<won, wout>>)
 
 \* api.py set_fan_speed: "ValueError: The requested fan speed is not supported"
